@@ -11,6 +11,7 @@
 #include "meddly.h"
 #include "unique_table.h"
 #include "arrays.h"
+#include "forest_levels.h"
 #include <cstdio>
 #include <cstdlib>
 #include <cstring>
@@ -858,6 +859,23 @@ static void cmd_getelem(const std::vector<std::string> &tk)
 }
 
 // ---------------------------------------------------------------------
+// C02: the level arithmetic itself (cross-check of the translated definitions
+// Gen/Levels.v against the functions they were translated from)
+//   lvl k1 k2
+// ---------------------------------------------------------------------
+static void cmd_lvl(const std::vector<std::string> &tk)
+{
+    int k1 = atoi(tk[1].c_str()), k2 = atoi(tk[2].c_str());
+    char buf[512];
+    snprintf(buf, 512, "lvl above=%d mdown=%d mup=%d mtop=%d mtopu=%d unp=%d pr=%d ddown=%d dup=%d dtop=%d",
+        isLevelAbove(k1, k2) ? 1 : 0,
+        MXD_levels::downLevel(k1), MXD_levels::upLevel(k1), MXD_levels::topLevel(k1, k2),
+        MXD_levels::topUnprimed(k1, k2), MXD_levels::unprimedOfLevel(k1), MXD_levels::primedOfLevel(k1),
+        MDD_levels::downLevel(k1), MDD_levels::upLevel(k1), MDD_levels::topLevel(k1, k2));
+    emit(buf);
+}
+
+// ---------------------------------------------------------------------
 // C15 on sets too large to tabulate: product sets
 //   prodset A F v,v v v,v,v ...   one token per variable (variable 1 first): allowed values
 //   idxbig X FI A                 X = CONVERT_TO_INDEX_SET(A); prints the stored cardinality
@@ -1523,6 +1541,7 @@ static void run(const std::vector<std::string> &tk)
     else if (c == "range") cmd_range(tk);
     else if (c == "iter") cmd_iter(tk);
     else if (c == "getelem") cmd_getelem(tk);
+    else if (c == "lvl") cmd_lvl(tk);
     else if (c == "prodset") cmd_prodset(tk);
     else if (c == "idxbig") cmd_idxbig(tk);
     else if (c == "getelemat") cmd_getelemat(tk);
